@@ -788,15 +788,8 @@ namespace
                     const XV& cxv = xv;
                     if (&xtl::xget<const int&>(cxv) != &xint) viol("model", "xget", "xget<const int&> on a variant holding xclosure_wrapper<int&> designates another object");
                     if (xv.index() != 0) viol("model", "xget", "wrong alternative for a closure of an int lvalue");
-                    // the alternative overloads unary & (it yields a closure pointer): get_if still hands out the address of the
-                    // alternative inside the variant
-                    auto* p = xtl::get_if<0>(&xv);
-                    auto* q = xtl::get_if<xtl::xclosure_wrapper<int&>>(&cxv);
-                    const char* lo = reinterpret_cast<const char*>(&xv);
-                    if (!p || !q) viol("model", "get_if", "get_if returns null for the live alternative (a type that overloads operator&)");
-                    if (reinterpret_cast<const char*>(p) < lo || reinterpret_cast<const char*>(p) >= lo + sizeof(XV) || static_cast<const void*>(p) != static_cast<const void*>(q))
-                        viol("model", "get_if", "get_if does not point at the alternative stored in the variant (a type that overloads operator&)");
-                    if (&p->get() != &xint) viol("model", "get_if", "the alternative reached through get_if designates another object");
+                    // an alternative that overloads unary &: get_if still hands out the address of the alternative in the variant
+                    // (tried on a type of the harness: with xclosure_wrapper itself a get_if that uses unary & does not even compile)
                     {
                         using AV = xtl::variant<int, AMP>;
                         AV av(mpark::in_place_index_t<1>{}, static_cast<uint64_t>(st.b % 1000));
